@@ -301,6 +301,33 @@ pub fn decode_spy<T: ZooType>(bytes: &[u8], bit_len: usize) -> Result<(Result<T,
 // =============================================================================================
 // C01
 
+/// Is the writer's refusal of this value one that C02 records (same decision as c02_single)? Returns the reason.
+fn recorded_refusal(ctx: &ZooCtx, u: &Universe, e: &TypeEntry, v: &Val, fs: &str, kind: &str) -> Option<String> {
+    let mut enc = Enc::new(u, Deviations::default());
+    if enc.encode_def(e.module, &e.def, v).is_err() {
+        // the reference refuses it as well: the generator produced a value outside its constraints
+        return Some("not-a-profile-value".into());
+    }
+    let classes: Vec<&'static str> = enc.classes.iter().copied().collect();
+    let first_absent = fs.contains("first-addition-absent-later-present");
+    let sorted_first_absent = fs.contains("addition-present") && classes.contains(&"set-additions-unsorted") && ctx.known_classes.contains("set-additions-unsorted");
+    if kind == "ExtensionFieldsInconsistent" && ctx.known_classes.contains("first-addition-absent") && (first_absent || sorted_first_absent) {
+        return Some("recorded-class:first-addition-absent".into());
+    }
+    if !classes.is_empty() {
+        let mut dev = Deviations::default();
+        for c in &classes {
+            if ctx.known_classes.contains(*c) {
+                dev.set(c, true);
+            }
+        }
+        if matches!(vgen::per::encode_dev(u, e.module, &e.def, v, &dev), Err(m) if m == "deviation-model:refused") {
+            return Some("recorded-class:deviation-model-predicts-refusal".into());
+        }
+    }
+    None
+}
+
 fn c01_single<T: ZooType>(ctx: &mut ZooCtx, u: &Universe, e: &TypeEntry) {
     let n = if e.family == "large" { (ctx.values_per_type / 2).max(6) } else { ctx.values_per_type };
     for k in 0..n {
@@ -318,7 +345,13 @@ fn c01_single<T: ZooType>(ctx: &mut ZooCtx, u: &Universe, e: &TypeEntry) {
                 continue;
             }
             Ok(Err(err)) => {
-                ctx.rep.hist("outcomes", &format!("encode-refused:{}", kind_name(&err)));
+                // a value inside its constraints that cannot be written does not round-trip; the only refusal that is
+                // recorded (C02 class first-addition-absent) is recognised by its error kind and by the value's shape
+                let kind = kind_name(&err);
+                match recorded_refusal(ctx, u, e, &v, &fs, &kind) {
+                    Some(why) => ctx.rep.hist("outcomes", &format!("encode-refused:{}", why)),
+                    None => ctx.rep.violation(&format!("c01:writer-refuses-value-inside-its-constraints:{}:{}", kind, fs), wit(u, e, &v, json!({"error": format!("{}", err)}))),
+                }
                 continue;
             }
             Ok(Ok(())) => {}
